@@ -997,3 +997,435 @@ Theorem prune_no_arguments tsep t exact sep :
   prune_tree tsep t (PStr []) exact sep 0 = Raise ValueError /\
   prune_tree tsep t (PList []) exact sep 0 = Raise ValueError.
 Proof. split; reflexivity. Qed.
+
+(* ============================================================================================
+   12. Inner start node (Node trees): the general functions of Helper.v with bin = false
+   ============================================================================================ *)
+
+Lemma map_id' {A} (f : A -> A) l : (forall x, f x = x) -> map f l = l.
+Proof. intros H. induction l as [|x l IH]; cbn; [reflexivity|]. rewrite H, IH. reflexivity. Qed.
+
+(* the nodes below position st, as they appear in the pre-order of the whole tree *)
+Lemma sub_pre_pos st : forall t s,
+  subtree_at t st = Some s ->
+  filter (fun ps => prefixb st (fst ps)) (pre_pos t) = map (fun ps => (st ++ fst ps, snd ps)) (pre_pos s).
+Proof.
+  induction st as [|i st IH]; intros t s H.
+  - cbn in H. inversion H; subst. rewrite filter_all by (intros; reflexivity).
+    symmetry. apply map_id'. intros [p x]. reflexivity.
+  - destruct t as [g n a ks]. cbn [subtree_at tkids] in H.
+    destruct (nth_error ks i) as [k|] eqn:Ek; [|discriminate].
+    cbn [pre_pos filter fst prefixb]. rewrite filter_concat, map_mapi_from.
+    rewrite (concat_mapi_only _ i ks 0 k); [| lia | rewrite Nat.sub_0_r; exact Ek |].
+    + rewrite filter_map_comm. cbn [fst].
+      rewrite (filter_ext_in' _ (fun ps : pos * tree => prefixb st (fst ps))).
+      * rewrite (IH k s H), map_map. reflexivity.
+      * intros [p x] _. cbn [fst prefixb]. rewrite Nat.eqb_refl. reflexivity.
+    + intros j x Hj. rewrite filter_map_comm. rewrite filter_none; [reflexivity|].
+      intros [p y] _. cbn [fst prefixb]. apply Nat.eqb_neq in Hj. rewrite Nat.eqb_sym, Hj. reflexivity.
+Qed.
+
+Lemma rel_depth st (p : pos) : S (length (st ++ p)) - length st = S (length p).
+Proof. rewrite app_length. lia. Qed.
+
+(* selecting below st in the whole tree = selecting in the subtree, depths counted from st *)
+Lemma sub_sel st t s P :
+  subtree_at t st = Some s -> expected_gen false t st P = sel (fun p => P (st ++ p)) s.
+Proof.
+  intros H. unfold expected_gen, sel.
+  rewrite <- (filter_filter (fun ps : pos * tree => prefixb st (fst ps)) (fun ps => P (fst ps))).
+  rewrite (sub_pre_pos st t s H), filter_map_comm, map_map. cbn [fst].
+  apply map_ext. intros [p x]. unfold rel_lbl, lbl_of. cbn [fst snd]. rewrite rel_depth. reflexivity.
+Qed.
+
+Lemma survive_app alive st : forall p,
+  survive alive (st ++ p) = survive alive st && survive (fun r => alive (st ++ r)) p.
+Proof.
+  revert alive. induction st as [|i st IH]; intros alive p.
+  - reflexivity.
+  - cbn [app]. rewrite !survive_cons, IH, andb_assoc. reflexivity.
+Qed.
+
+Lemma survive_below N exact st p :
+  N <> [] -> non_nested N -> (forall q, In q N -> prefix st q) ->
+  survive (fun r => negb (detached N exact (st ++ r))) p = keep N exact (st ++ p).
+Proof.
+  intros H1 H2 H3. rewrite <- (survive_eq_keep N exact (st ++ p) H1 H2), survive_app.
+  rewrite (survive_eq_keep N exact st H1 H2).
+  assert (Hk : keep N exact st = true).
+  { apply keep_spec. left. destruct N as [|q N]; [contradiction|]. exists q.
+    split; [left; reflexivity|]. apply H3. left. reflexivity. }
+  rewrite Hk. reflexivity.
+Qed.
+
+Lemma depth_cut_x_false d t : depth_cut_x false d t = depth_cut d t.
+Proof. destruct d; reflexivity. Qed.
+
+(* the model's search space below st = the positions below st *)
+Lemma search_space_pre_pos t st s :
+  subtree_at t st = Some s ->
+  search_space false t st = map fst (filter (fun ps => prefixb st (fst ps)) (pre_pos t)).
+Proof.
+  intros H. unfold search_space. rewrite H. cbn [negb orb].
+  rewrite filter_all by (intros; reflexivity).
+  rewrite (sub_pre_pos st t s H), positions_pre_pos, !map_map. reflexivity.
+Qed.
+
+Lemma find_paths_at_addressed c t st s0 s :
+  subtree_at t st = Some s0 ->
+  find_paths_pos_at false [c] (copy_tree t) st s = addressed_at false [c] t st s.
+Proof.
+  intros H. unfold find_paths_pos_at, addressed_at.
+  assert (Hc : subtree_at (copy_tree t) st = Some (copy_tree s0)) by (rewrite subtree_at_copy, H; reflexivity).
+  rewrite (search_space_pre_pos _ st _ Hc), pre_pos_copy.
+  rewrite (filter_map_comm (fun ps : pos * tree => prefixb st (fst ps)) cp), map_map. cbn [cp fst].
+  rewrite filter_map_comm, filter_filter. f_equal. apply filter_ext_in'. intros [p x] _. cbn [fst snd negb orb].
+  rewrite andb_true_r. f_equal. unfold node_path_name, spec_path_name.
+  rewrite names_along_copy, route_names, strip_trailing_single, is_suffix_endswith. reflexivity.
+Qed.
+
+Lemma addressed_at_below bin tsep t st s q : In q (addressed_at bin tsep t st s) -> prefix st q.
+Proof.
+  unfold addressed_at. intros H. apply in_map_iff in H as [[p x] [<- H]]. apply filter_In in H as [_ H].
+  cbn [fst snd] in H. apply andb_true_iff in H as [H _]. apply andb_true_iff in H as [H _].
+  apply prefixb_prefix. exact H.
+Qed.
+
+Lemma addressed_at_valid bin tsep t st s q : In q (addressed_at bin tsep t st s) -> exists x, subtree_at t q = Some x.
+Proof.
+  unfold addressed_at. intros H. apply in_map_iff in H as [[p x] [<- H]]. apply filter_In in H as [H _].
+  apply positions_valid. apply (in_map fst) in H. exact H.
+Qed.
+
+Definition hits_at (c : N) (sep : str) (t : tree) (st : pos) (paths : list str) : list (list pos) :=
+  map (fun s => addressed_at false [c] t st (replace s sep [c])) paths.
+
+Lemma locate_at_missing c sep t st s0 paths :
+  subtree_at t st = Some s0 ->
+  existsb is_nil (hits_at c sep t st paths) = true ->
+  exists e, locate_at false [c] sep (copy_tree t) st paths = Raise e.
+Proof.
+  intros Hs. induction paths as [|s paths IH]; cbn [hits_at map existsb locate_at]; [discriminate|].
+  unfold find_path_at. rewrite (find_paths_at_addressed c t st s0 _ Hs).
+  destruct (addressed_at false [c] t st (replace s sep [c])) as [|p [|p' l]]; cbn [is_nil orb]; intros H.
+  - exists NotFoundError. reflexivity.
+  - destruct (IH H) as [e He]. exists e. rewrite He. reflexivity.
+  - exists SearchError. reflexivity.
+Qed.
+
+Lemma locate_at_found c sep t st s0 paths :
+  subtree_at t st = Some s0 ->
+  singletons (hits_at c sep t st paths) = true ->
+  locate_at false [c] sep (copy_tree t) st paths = Ret (concat (hits_at c sep t st paths)).
+Proof.
+  intros Hs. induction paths as [|s paths IH]; cbn [hits_at map singletons forallb locate_at concat]; [reflexivity|].
+  unfold find_path_at. rewrite (find_paths_at_addressed c t st s0 _ Hs).
+  destruct (addressed_at false [c] t st (replace s sep [c])) as [|p [|p' l]]; cbn [andb]; intros H; try discriminate.
+  fold (hits_at c sep t st paths). rewrite (IH H). reflexivity.
+Qed.
+
+Lemma hits_at_below c sep t st paths q : In q (concat (hits_at c sep t st paths)) -> prefix st q.
+Proof.
+  intros H. apply in_concat in H as [l [Hl Hq]]. unfold hits_at in Hl. apply in_map_iff in Hl as [s [<- _]].
+  apply (addressed_at_below _ _ _ _ _ _ Hq).
+Qed.
+
+Lemma inner_cut_only_obs st t s0 d :
+  subtree_at t st = Some s0 ->
+  obs_tree (depth_cut_x false d (copy_tree s0)) =
+  expected_gen false t st (fun p => true && within_depth d (S (length p) - length st)).
+Proof.
+  intros H. rewrite (sub_sel st t s0 _ H), depth_cut_x_false, depth_cut_obs, obs_tree_copy, obs_tree_sel, filter_sel.
+  unfold sel. f_equal. apply filter_ext_in'. intros [p x] _. cbn [fst]. rewrite rel_depth. reflexivity.
+Qed.
+
+Lemma inner_prune_then_cut_obs N exact st t s0 d :
+  subtree_at t st = Some s0 ->
+  N <> [] -> nested N = false -> (forall q, In q N -> prefix st q) ->
+  obs_tree (depth_cut_x false d (prune_paths_at false N exact st (copy_tree s0))) =
+  expected_gen false t st (fun p => (false || keep N exact p) && within_depth d (S (length p) - length st)).
+Proof.
+  intros H H1 H2 H3. rewrite (sub_sel st t s0 _ H), depth_cut_x_false, depth_cut_obs.
+  unfold prune_paths_at. rewrite filter_tree_obs, sel_copy, filter_sel.
+  unfold sel. f_equal. apply filter_ext_in'. intros [p x] _. cbn [fst orb].
+  rewrite rel_depth. f_equal. exact (survive_below N exact st p H1 (proj1 (nested_false N) H2) H3).
+Qed.
+
+Theorem prune_tree_at_satisfies c t st s0 pp exact sep d :
+  subtree_at t st = Some s0 -> sep <> [] ->
+  prop_C14_at false [c] t st (CPrune pp exact sep d) (obs_of (prune_tree_at false [c] t st pp exact sep d)) = true.
+Proof.
+  intros Hst Hsep. unfold prop_C14_at, prune_tree_at.
+  destruct (is_nil (norm_paths pp) && Nat.eqb d 0) eqn:E0; [reflexivity|].
+  destruct sep as [|x sep]; [contradiction|]. cbn [is_nil orb].
+  rewrite subtree_at_copy, Hst. cbn [option_map].
+  change (map (fun s => addressed_at false [c] t st (replace s (x :: sep) [c])) (norm_paths pp))
+    with (hits_at c (x :: sep) t st (norm_paths pp)).
+  destruct (existsb is_nil (hits_at c (x :: sep) t st (norm_paths pp))) eqn:E1.
+  - destruct (norm_paths pp) as [|s paths] eqn:Ep; [discriminate|]. cbn [is_nil].
+    destruct (locate_at_missing c (x :: sep) t st s0 (s :: paths) Hst E1) as [e He]. rewrite He. reflexivity.
+  - destruct (singletons (hits_at c (x :: sep) t st (norm_paths pp))) eqn:E2; [|reflexivity].
+    cbn [negb]. destruct (nested (concat (hits_at c (x :: sep) t st (norm_paths pp)))) eqn:E3; [reflexivity|].
+    destruct (norm_paths pp) as [|s paths] eqn:Ep; cbn [is_nil].
+    + cbn [obs_of]. apply is_tree_refl. apply (inner_cut_only_obs st t s0 d Hst).
+    + rewrite (locate_at_found c (x :: sep) t st s0 (s :: paths) Hst E2). cbn [obs_of]. apply is_tree_refl.
+      apply (inner_prune_then_cut_obs _ exact st t s0 d Hst); [|exact E3|].
+      * apply singletons_nonempty; [exact E2|discriminate].
+      * intros q. apply hits_at_below.
+Qed.
+
+Lemma subtree_tail_x_obs x d :
+  obs_of (if Nat.eqb d 0 then Ret (copy_tree x) else Ret (depth_cut_x false d (copy_tree (copy_tree x)))) =
+  OTree (filter (fun l => within_depth d (lbl_depth l)) (obs_tree x)).
+Proof. rewrite depth_cut_x_false. apply subtree_tail_obs. Qed.
+
+Lemma expected_gen_subtree t q d :
+  expected_gen false t q (fun p => within_depth d (S (length p) - length q)) = expected_subtree t q d.
+Proof. reflexivity. Qed.
+
+Theorem get_subtree_at_satisfies c t st s0 s d :
+  subtree_at t st = Some s0 ->
+  prop_C14_at false [c] t st (CSubtree s d) (obs_of (get_subtree_at false [c] t st s d)) = true.
+Proof.
+  intros Hst. unfold prop_C14_at, get_subtree_at. cbn [is_nil]. destruct (is_nil s) eqn:Es.
+  - rewrite subtree_at_copy, Hst. cbn [option_map]. rewrite subtree_tail_x_obs. apply is_tree_refl.
+    rewrite expected_gen_subtree. symmetry. apply (expected_subtree_spec st t s0 d Hst).
+  - unfold find_path_at. rewrite (find_paths_at_addressed c t st s0 s Hst).
+    destruct (addressed_at false [c] t st s) as [|q [|q' l]] eqn:Ea; [reflexivity| |reflexivity].
+    destruct (addressed_at_valid false [c] t st s q) as [x Hx]; [rewrite Ea; left; reflexivity|].
+    rewrite subtree_at_copy, Hx. cbn [option_map]. rewrite subtree_tail_x_obs. apply is_tree_refl.
+    rewrite expected_gen_subtree. symmetry. apply (expected_subtree_spec q t x d Hx).
+Qed.
+
+Theorem model_satisfies_C14_at c t st s0 call :
+  subtree_at t st = Some s0 -> call_ok call ->
+  prop_C14_at false [c] t st call (obs_of (run_call_at false [c] t st call)) = true.
+Proof.
+  intros Hst. destruct call as [pp exact sep d|s d]; cbn [call_ok run_call_at]; intros H.
+  - apply (prune_tree_at_satisfies c t st s0); assumption.
+  - apply (get_subtree_at_satisfies c t st s0). exact Hst.
+Qed.
+
+(* explicit forms *)
+Theorem prune_kept_inner c sep t st s0 paths exact d :
+  subtree_at t st = Some s0 -> sep <> [] -> paths <> [] ->
+  singletons (hits_at c sep t st paths) = true -> nested (concat (hits_at c sep t st paths)) = false ->
+  exists r, prune_tree_at false [c] t st (PList paths) exact sep d = Ret r /\
+            obs_tree r =
+            map (rel_lbl st)
+                (filter (fun ps => prefixb st (fst ps)
+                                   && (keep (concat (hits_at c sep t st paths)) exact (fst ps)
+                                       && within_depth d (S (length (fst ps)) - length st))) (pre_pos t)).
+Proof.
+  intros Hst Hs Hp H1 H2. unfold prune_tree_at. cbn [norm_paths].
+  destruct paths as [|s paths]; [contradiction|]. destruct sep as [|y sep]; [contradiction|].
+  cbn [is_nil andb orb]. rewrite subtree_at_copy, Hst. cbn [option_map].
+  rewrite (locate_at_found c (y :: sep) t st s0 (s :: paths) Hst H1).
+  eexists. split; [reflexivity|].
+  rewrite (inner_prune_then_cut_obs _ exact st t s0 d Hst); [reflexivity| |exact H2|].
+  - apply singletons_nonempty; [exact H1|discriminate].
+  - intros q. apply hits_at_below.
+Qed.
+
+Theorem subtree_spec_inner c t st s0 s d q :
+  subtree_at t st = Some s0 -> s <> [] -> addressed_at false [c] t st s = [q] ->
+  prefix st q /\
+  exists r, get_subtree_at false [c] t st s d = Ret r /\ obs_tree r = expected_subtree t q d.
+Proof.
+  intros Hst Hs Ha. split.
+  { apply (addressed_at_below false [c] t st s q). rewrite Ha. left. reflexivity. }
+  unfold get_subtree_at. cbn [is_nil]. destruct s as [|x s]; [contradiction|]. cbn [is_nil].
+  unfold find_path_at. rewrite (find_paths_at_addressed c t st s0 _ Hst), Ha.
+  destruct (addressed_at_valid false [c] t st (x :: s) q) as [y Hy]; [rewrite Ha; left; reflexivity|].
+  rewrite subtree_at_copy, Hy. cbn [option_map].
+  destruct (subtree_tail_ret y d) as [r [Hr Ho]]. exists r. rewrite depth_cut_x_false. split; [exact Hr|].
+  rewrite Ho. symmetry. apply (expected_subtree_spec q t y d Hy).
+Qed.
+
+(* a path that addresses a node outside the start node's subtree only (or nothing) is an error *)
+Theorem missing_path_error_inner c sep t st s0 paths exact d s :
+  subtree_at t st = Some s0 -> sep <> [] -> In s paths ->
+  addressed_at false [c] t st (replace s sep [c]) = [] ->
+  exists e, prune_tree_at false [c] t st (PList paths) exact sep d = Raise e.
+Proof.
+  intros Hst Hs Hin Ha. unfold prune_tree_at. cbn [norm_paths].
+  destruct paths as [|p0 paths]; [contradiction|]. destruct sep as [|y sep]; [contradiction|].
+  cbn [is_nil andb orb]. rewrite subtree_at_copy, Hst. cbn [option_map].
+  assert (E : existsb is_nil (hits_at c (y :: sep) t st (p0 :: paths)) = true).
+  { apply existsb_exists. exists []. split; [|reflexivity]. unfold hits_at. rewrite <- Ha.
+    apply (in_map (fun s => addressed_at false [c] t st (replace s (y :: sep) [c]))). exact Hin. }
+  destruct (locate_at_missing c (y :: sep) t st s0 (p0 :: paths) Hst E) as [e He]. rewrite He.
+  exists e. reflexivity.
+Qed.
+
+(* the general functions called on the root are the functions of sections 1-11 *)
+Lemma search_space_root t : search_space false t [] = positions t.
+Proof.
+  unfold search_space. cbn [subtree_at negb orb app]. rewrite filter_all by (intros; reflexivity).
+  apply map_id'. intros; reflexivity.
+Qed.
+
+Lemma find_path_at_root tsep t s : find_path_at false tsep t [] s = find_path tsep t s.
+Proof. unfold find_path_at, find_path, find_paths_pos_at, find_paths_pos. rewrite search_space_root. reflexivity. Qed.
+
+Lemma locate_at_root tsep sep t paths : locate_at false tsep sep t [] paths = locate tsep sep t paths.
+Proof.
+  induction paths as [|s paths IH]; [reflexivity|]. cbn [locate_at locate].
+  rewrite find_path_at_root, IH. reflexivity.
+Qed.
+
+Theorem run_call_at_root tsep t call : run_call_at false tsep t [] call = run_call tsep t call.
+Proof.
+  destruct call as [pp exact sep d|s d]; cbn [run_call_at run_call].
+  - unfold prune_tree_at, prune_tree. cbn [subtree_at]. rewrite locate_at_root.
+    destruct (is_nil (norm_paths pp) && Nat.eqb d 0); [reflexivity|].
+    destruct (is_nil tsep || is_nil sep); [reflexivity|].
+    destruct (is_nil (norm_paths pp)).
+    + rewrite depth_cut_x_false. reflexivity.
+    + destruct (locate tsep sep (copy_tree t) (norm_paths pp)); [|reflexivity].
+      rewrite depth_cut_x_false. reflexivity.
+  - unfold get_subtree_at, get_subtree. destruct (is_nil tsep); [reflexivity|].
+    rewrite find_path_at_root. destruct (is_nil s).
+    + cbn [subtree_at]. destruct (Nat.eqb d 0); [reflexivity|]. rewrite depth_cut_x_false. reflexivity.
+    + destruct (find_path tsep (copy_tree t) s) as [[p|]|e]; try reflexivity.
+      destruct (subtree_at (copy_tree t) p); [|reflexivity].
+      destruct (Nat.eqb d 0); [reflexivity|]. rewrite depth_cut_x_false. reflexivity.
+Qed.
+
+(* ============================================================================================
+   13. BinaryNode trees (HOLE placeholders): the surgery keeps exactly the surviving real nodes and
+       never moves a slot
+   ============================================================================================ *)
+
+(* encoding invariant used here: nothing hangs below an empty slot *)
+Fixpoint holes_leaf (t : tree) : bool :=
+  match t with T _ n _ ks => (negb (is_nil n) || is_nil ks) && forallb holes_leaf ks end.
+
+Definition is_real_lbl (l : lbl) : bool := match l with (_, n, _) => negb (is_nil n) end.
+Definition real_obs (t : tree) : list lbl := filter is_real_lbl (obs_tree t).
+
+(* labels of the nodes selected by position and node *)
+Definition sel2 (Q : pos -> tree -> bool) (t : tree) : list lbl :=
+  map lbl_of (filter (fun ps => Q (fst ps) (snd ps)) (pre_pos t)).
+
+Lemma sel2_unfold Q g n a ks :
+  sel2 Q (T g n a ks) =
+  (if Q [] (T g n a ks) then [(1, n, a)] else []) ++
+  concat (mapi_from (fun i k => map lbl_up (sel2 (fun p => Q (i :: p)) k)) 0 ks).
+Proof.
+  unfold sel2. cbn [pre_pos filter fst snd].
+  assert (E : map lbl_of
+                (filter (fun ps => Q (fst ps) (snd ps))
+                   (concat (mapi_from (fun i k => map (fun ps => (i :: fst ps, snd ps)) (pre_pos k)) 0 ks))) =
+              concat (mapi_from (fun i k =>
+                        map lbl_up (map lbl_of (filter (fun ps => Q (i :: fst ps) (snd ps)) (pre_pos k)))) 0 ks)).
+  { rewrite filter_concat, map_mapi_from, map_concat, map_mapi_from. f_equal.
+    apply mapi_from_ext. intros j x _. rewrite filter_map_comm, !map_map. cbn [fst snd].
+    apply map_ext. intros ps. apply lbl_of_shift. }
+  destruct (Q [] (T g n a ks)); cbn [map app]; rewrite E; reflexivity.
+Qed.
+
+Lemma sel2_ext Q R t : (forall p s, Q p s = R p s) -> sel2 Q t = sel2 R t.
+Proof. intros H. unfold sel2. f_equal. apply filter_ext_in'. intros ps _. apply H. Qed.
+
+Lemma sel2_false t : sel2 (fun _ _ => false) t = [].
+Proof. unfold sel2. rewrite filter_none; [reflexivity|]. intros; reflexivity. Qed.
+
+Lemma is_real_up l : is_real_lbl (lbl_up l) = is_real_lbl l.
+Proof. destruct l as [[d n] a]. reflexivity. Qed.
+
+Lemma filter_flat_map {A B} (P : B -> bool) (f : A -> list B) l :
+  filter P (flat_map f l) = flat_map (fun x => filter P (f x)) l.
+Proof. induction l as [|x l IH]; cbn; [reflexivity|]. rewrite filter_app, IH. reflexivity. Qed.
+
+Lemma real_obs_unfold g n a ks :
+  real_obs (T g n a ks) =
+  (if negb (is_nil n) then [(1, n, a)] else []) ++ flat_map (fun k => map lbl_up (real_obs k)) ks.
+Proof.
+  unfold real_obs. rewrite obs_tree_unfold. cbn [filter is_real_lbl].
+  assert (E : filter is_real_lbl (flat_map (fun k => map lbl_up (obs_tree k)) ks) =
+              flat_map (fun k => map lbl_up (filter is_real_lbl (obs_tree k))) ks).
+  { rewrite filter_flat_map. apply flat_map_ext. intros k. rewrite filter_map_comm. f_equal.
+    apply filter_ext_in'. intros l _. apply is_real_up. }
+  destruct (negb (is_nil n)); cbn [app]; rewrite E; reflexivity.
+Qed.
+
+Lemma real_obs_hole k : is_hole k = true -> holes_leaf k = true -> real_obs k = [].
+Proof.
+  destruct k as [g n a ks]. unfold is_hole. cbn [tname holes_leaf]. intros Hn Hl.
+  rewrite Hn in Hl. cbn [negb orb] in Hl. apply andb_true_iff in Hl as [Hk _].
+  destruct ks; [|discriminate]. rewrite real_obs_unfold, Hn. reflexivity.
+Qed.
+
+Lemma sel2_hole Q k : is_hole k = true -> holes_leaf k = true -> sel2 (fun p s => Q p s && negb (is_hole s)) k = [].
+Proof.
+  destruct k as [g n a ks]. unfold is_hole at 1. cbn [tname holes_leaf]. intros Hn Hl.
+  rewrite Hn in Hl. cbn [negb orb] in Hl. apply andb_true_iff in Hl as [Hk _].
+  destruct ks; [|discriminate]. rewrite sel2_unfold. unfold is_hole. cbn [tname mapi_from concat].
+  rewrite Hn, andb_false_r. reflexivity.
+Qed.
+
+Lemma filter_tree_b_kids (alive : pos -> bool) (ks : list tree) : forall i,
+  Forall (fun k => forall al, holes_leaf k = true ->
+            real_obs (filter_tree_b al k) = sel2 (fun p s => survive al p && negb (is_hole s)) k) ks ->
+  forallb holes_leaf ks = true ->
+  flat_map (fun k => map lbl_up (real_obs k))
+    (mapi_from (fun i k => if is_hole k then k
+                           else if alive [i] then filter_tree_b (fun p => alive (i :: p)) k else HOLE) i ks) =
+  concat (mapi_from (fun i k => map lbl_up (sel2 (fun p s => survive alive (i :: p) && negb (is_hole s)) k)) i ks).
+Proof.
+  induction ks as [|k ks IHk]; intros i HF HL; [reflexivity|].
+  inversion HF as [|? ? Hk Hks]; subst. cbn [forallb] in HL. apply andb_true_iff in HL as [HLk HLs].
+  cbn [mapi_from concat flat_map]. rewrite (IHk (S i) Hks HLs). f_equal.
+  destruct (is_hole k) eqn:Eh.
+  - rewrite (real_obs_hole k Eh HLk), (sel2_hole _ k Eh HLk). reflexivity.
+  - destruct (alive [i]) eqn:Ea.
+    + rewrite (Hk _ HLk). f_equal. apply sel2_ext. intros p s. rewrite survive_cons, Ea. reflexivity.
+    + rewrite (sel2_ext _ (fun _ _ => false)), sel2_false; [reflexivity|].
+      intros p s. rewrite survive_cons, Ea. reflexivity.
+Qed.
+
+(* the real nodes of the result are exactly the surviving real nodes, in order, with depth, name
+   and attributes *)
+Lemma filter_tree_b_real t : forall alive,
+  holes_leaf t = true ->
+  real_obs (filter_tree_b alive t) = sel2 (fun p s => survive alive p && negb (is_hole s)) t.
+Proof.
+  induction t as [g n a ks IH] using tree_ind'. intros alive HL.
+  cbn [filter_tree_b]. rewrite real_obs_unfold, sel2_unfold.
+  cbn [survive nonempty_prefixes forallb andb]. unfold is_hole at 1. cbn [tname].
+  cbn [holes_leaf] in HL. apply andb_true_iff in HL as [_ HLs].
+  f_equal. apply filter_tree_b_kids; assumption.
+Qed.
+
+Theorem binary_prune_kept N exact t :
+  holes_leaf t = true -> N <> [] -> nested N = false ->
+  real_obs (prune_paths_at true N exact [] t) =
+  map lbl_of (filter (fun ps => keep N exact (fst ps) && negb (is_hole (snd ps))) (pre_pos t)).
+Proof.
+  intros HL H1 H2. unfold prune_paths_at. cbn [app]. rewrite (filter_tree_b_real t _ HL).
+  unfold sel2. f_equal. apply filter_ext_in'. intros [p s] _. cbn [fst snd]. f_equal.
+  apply survive_eq_keep; [exact H1|]. apply nested_false. exact H2.
+Qed.
+
+(* slots never move: the result has the same slots; slot i holds what it held (pruned below), or is
+   empty if it was empty or its node was cut loose *)
+Lemma nth_error_mapi_from {A B} (f : nat -> A -> B) l : forall i j,
+  nth_error (mapi_from f i l) j = option_map (f (i + j)) (nth_error l j).
+Proof.
+  induction l as [|x l IH]; intros i [|j]; cbn; try reflexivity.
+  - rewrite Nat.add_0_r. reflexivity.
+  - rewrite IH. replace (S i + j) with (i + S j) by lia. reflexivity.
+Qed.
+
+Theorem binary_slots_preserved alive g n a ks :
+  length (tkids (filter_tree_b alive (T g n a ks))) = length ks /\
+  forall i, nth_error (tkids (filter_tree_b alive (T g n a ks))) i =
+            option_map (fun k => if is_hole k then k
+                                 else if alive [i] then filter_tree_b (fun p => alive (i :: p)) k else HOLE)
+                       (nth_error ks i).
+Proof.
+  cbn [filter_tree_b tkids]. split.
+  - generalize 0. induction ks as [|k ks IH]; intros i; cbn; [reflexivity|]. rewrite IH. reflexivity.
+  - intros i. rewrite nth_error_mapi_from. reflexivity.
+Qed.
